@@ -642,6 +642,40 @@ theorem dumpModel_ok_noextra (cfg : DumpCfg) (crown : OutCrown) (obj : List (Str
       have hv : st.vals = specVals cfg obj direct := by simpa [direct] using a
       exact ⟨by rw [hv], by simpa [direct] using r⟩
 
+/-- the extraction stage succeeds when every required field is there and no dumper fails -/
+theorem extractFields_complete (cfg : DumpCfg) (obj : List (String × Val)) : ∀ (fs : List Field) (st : DState),
+    (∀ f ∈ fs, (f.required = true → ∃ raw, Val.lookup f.id obj = some raw) ∧
+      (∀ raw, Val.lookup f.id obj = some raw → ∃ v, cfg.dumper f.id raw = .ok v)) →
+    extractFields cfg obj fs st = .inl { st with vals := st.vals ++ specVals cfg obj fs }
+  | [], st, _ => by simp [extractFields, specVals]
+  | f :: r, st, h => by
+    obtain ⟨h1, h2⟩ := h f (by simp)
+    have ih := fun st' => extractFields_complete cfg obj r st' (fun g hg => h g (by simp [hg]))
+    unfold extractFields extractOne specVals dumpedOf
+    cases hl : Val.lookup f.id obj with
+    | none =>
+      have hreq : f.required = false := by
+        cases hr : f.required
+        · rfl
+        · obtain ⟨raw, hraw⟩ := h1 hr
+          simp [hl] at hraw
+      simp [hreq, ih]
+    | some raw =>
+      obtain ⟨v, hv⟩ := h2 raw hl
+      simp [hv, ih]
+
+theorem dumpModel_complete_noextra (cfg : DumpCfg) (crown : OutCrown) (obj : List (String × Val))
+    (hmove : cfg.move = .none)
+    (h : ∀ f ∈ cfg.fields.filter (fun f => crown.fieldIds.contains f.id),
+      (f.required = true → ∃ raw, Val.lookup f.id obj = some raw) ∧
+      (∀ raw, Val.lookup f.id obj = some raw → ∃ v, cfg.dumper f.id raw = .ok v)) :
+    dumpModel cfg crown obj =
+      .ok (dumpCrown cfg obj (specVals cfg obj (cfg.fields.filter fun f => crown.fieldIds.contains f.id)) crown) := by
+  unfold dumpModel
+  simp only [hmove, OutExtraMove.targetIds, List.contains_nil, Bool.not_false, Bool.and_true]
+  rw [extractFields_complete cfg obj _ {} h]
+  simp
+
 mutual
 /-- a field leaf of a crown is one of the crown's field ids -/
 theorem leaf_mem_fieldIds : ∀ (c : OutCrown) (q : Path) (id : String),
